@@ -330,8 +330,22 @@ class Recorder:
         def pre_min(candle, exchange, symbol):
             rec.emit('minute', sym=symbol, ex=exchange, t=rec.now_min(), candle=[float(x) for x in candle])
 
+        def pos_state(exchange, symbol):
+            """position after matching (additive fields of minute_end / chunk_end: a liquidation check that was
+            skipped altogether leaves no liqcheck event, the state at the end of the candle still shows it)"""
+            from jesse.store import store
+            try:
+                p = store.positions.storage['%s-%s' % (exchange, symbol)]
+                liq = None
+                if p.is_open and p.exchange.type == 'futures':
+                    liq = p.liquidation_price
+                return dict(qty=p.qty, entry=p.entry_price, liq=liq, count=store.app.total_liquidations)
+            except Exception:
+                return {}
+
         def post_min(tok, r, e, candle, exchange, symbol):
-            rec.emit('minute_end', sym=symbol, t=rec.now_min(), exc=(type(e).__name__ if e is not None else 'none'))
+            rec.emit('minute_end', sym=symbol, t=rec.now_min(), exc=(type(e).__name__ if e is not None else 'none'),
+                     **pos_state(exchange, symbol))
 
         self._wrap(bm, '_simulate_price_change_effect', pre=pre_min, post=post_min)
 
@@ -339,7 +353,8 @@ class Recorder:
             rec.emit('chunk', sym=symbol, ex=exchange, t=rec.now_min(), candles=[[float(x) for x in c] for c in candles])
 
         def post_chunk(tok, r, e, candles, exchange, symbol):
-            rec.emit('chunk_end', sym=symbol, t=rec.now_min(), exc=(type(e).__name__ if e is not None else 'none'))
+            rec.emit('chunk_end', sym=symbol, t=rec.now_min(), exc=(type(e).__name__ if e is not None else 'none'),
+                     **pos_state(exchange, symbol))
 
         self._wrap(bm, '_simulate_price_change_effect_multiple_candles', pre=pre_chunk, post=post_chunk)
 
